@@ -287,6 +287,11 @@ func checkC04(w *World, r *Report) {
 			return o.Rule == "C05.R2" && (strings.HasPrefix(o.Key, "C05.R2|restart-buffer-dropped") || strings.HasSuffix(o.Key, ":clears-replayed-buffer"))
 		})
 		// ... and what is sent before Started or while the actor is down waits in the ring
+		// "nothing is delivered to it afterwards", "Stopped exactly once": one worker at a time delivers to the incarnation
+		r.Rule("C04.R7", "one worker per actor: status-word protocol (C02.R1-R4)", 4)
+		importRules(w, r, checkC02, "C02", "C04.R7", func(o *Obligation) bool {
+			return o.Rule == "C02.R1" || o.Rule == "C02.R2" || o.Rule == "C02.R3" || o.Rule == "C02.R4"
+		})
 		r.Rule("C04.R6", "messages accepted before Started (or during a restart) wait in a ring whose operations are sound (C14.R1-R5)", 8)
 		importRules(w, r, checkC14, "C14", "C04.R6", func(o *Obligation) bool {
 			return o.Rule == "C14.R1" || o.Rule == "C14.R2" || o.Rule == "C14.R3" || o.Rule == "C14.R4" || o.Rule == "C14.R5"
@@ -363,7 +368,7 @@ func checkC05(w *World, r *Report) {
 			return o.Rule == "C14.R1" || o.Rule == "C14.R2" || o.Rule == "C14.R3" || o.Rule == "C14.R4" || o.Rule == "C14.R5"
 		})
 	}
-	pr.lta.export(r, "C05.R2", []string{"incarnation-replaced-without-Stopped", "Initialized-out-of-order", "Started-out-of-order", "user-message-before-Started", "inbox-started-after-cleanup", "restart-buffer-dropped", "unclassified-delivery", "chain-does-not-end-in-the-receiver", "inbox-reopened-by-worker"}, "restart order; every delivery goes to the current incarnation's receiver")
+	pr.lta.export(r, "C05.R2", []string{"incarnation-replaced-without-Stopped", "Initialized-out-of-order", "Started-out-of-order", "user-message-before-Started", "inbox-started-after-cleanup", "restart-buffer-dropped", "unclassified-delivery", "chain-does-not-end-in-the-receiver", "inbox-reopened-by-worker", "spawn-leaves-inbox-closed"}, "restart order; every delivery goes to the current incarnation's receiver")
 
 	// R2: both recover handlers exist and hand the panic value to the restart function, synchronously
 	evRestart := EvCall("restart", pr.restartFn)
@@ -844,9 +849,16 @@ func checkC06(w *World, r *Report) {
 	checkStopFn(w, r, pr, "C06.R3")
 	checkChildrenRegion(w, r, pr, "C06.R3")
 	checkSafeMapLen(w, r, "C06.R3")
+	if a := w.sendAnchors(); a.missing() == "" {
+		checkRemoveExact(w, r, "C06.R3", a) // "every other actor keeps running": unregistering one id touches no other
+	}
 	if r.Prop == "C06" {
 		// a terminated actor gets nothing more: its worker looks at the status before every batch
 		checkLoopStatus(w, r, "C06.R4")
+		// "the actor (and its children) are stopped": the children the stop function finds are the children there are
+		// (C08.R2/R3: keyed by the child's full id, recorded by SpawnChild, removed by the child before it gives up its id)
+		r.Rule("C06.R6", "the children table the stop function walks is exact (C08.R2, C08.R3)", 3)
+		importRules(w, r, checkC08, "C08", "C06.R6", func(o *Obligation) bool { return o.Rule == "C08.R2" || o.Rule == "C08.R3" })
 	}
 	budgetPath := ">" + pr.restartFn.Name() + ">" + pr.stopFn.Name()
 	pr.lta.exportIf(r, "C06.R4", []string{"panic-escapes", "Stopped-twice", "terminated-without-Stopped", "inbox-started-after-cleanup", "delivery-after-Stopped"},
@@ -1167,6 +1179,9 @@ func checkC07(w *World, r *Report) {
 		importRules(w, r, checkC03, "C03", "C07.R9", func(o *Obligation) bool {
 			return o.Rule == "C03.R1" || o.Rule == "C03.R2" || o.Rule == "C03.R3" || (o.Rule == "C03.R7" && strings.Contains(o.Key, "idle-writers"))
 		})
+		// the stop function comes to an end: its wait for the children is one pass over one list (C08.R1)
+		// (checked here directly: C08 imports C07's rules, an import the other way round would be circular)
+		checkChildrenRegion(w, r, pr, "C07.R9")
 	}
 	{
 		g := w.FGI(pr.stopFn)
